@@ -724,6 +724,14 @@ val leray_mode : ops -> car list -> car list -> car list
 
 val make_incompressible_mode : ops -> car list -> car list -> car list
 
+val ax_scale : ops -> z -> z -> bool -> car
+
+val injection2d : ops -> car -> car -> z -> z -> z list -> car
+
+val sgn0 : ops -> z -> car
+
+val injection3d : ops -> car -> car -> z -> z -> nat -> z list -> car
+
 val aff : z -> z -> z -> z
 
 val affx : z -> z -> z -> z
@@ -755,5 +763,7 @@ val run_c04 : z -> q list -> q list
 val run_term : q list -> q list
 
 val run_ops : z -> q list -> q list
+
+val run_c12 : z -> q list -> q list
 
 val run : z -> q list -> q list
